@@ -158,7 +158,7 @@ def case_metamorphic(spec, cov, out):
             # locate which mapping's order matters: retry with only one top-level section shuffled
             if name.startswith("shuffle"):
                 if "culprit" not in spec:
-                    spec["culprit"] = locate(cfg, vcfg, base, base_spec)
+                    spec["culprit"] = locate(cfg, vcfg, base, base_spec, upto=max(12, (t or 0) + 3) if ep in (0, None) else 12)
                 culprit = spec["culprit"]
             else:
                 culprit = "n/a"
@@ -169,7 +169,7 @@ def case_metamorphic(spec, cov, out):
                                 {"variant": name, "divergence": str(dv)[:1200]}))
 
 
-def locate(cfg, vcfg, base, base_spec):
+def locate(cfg, vcfg, base, base_spec, upto=12):
     """which mapping's key order changes behaviour? reverse the key order of one group of same-named mappings at a time"""
     from concurrent.futures import ThreadPoolExecutor
 
@@ -204,8 +204,8 @@ def locate(cfg, vcfg, base, base_spec):
                 cur[p[-1]] = rev
             else:
                 c2 = rev
-        r = traj.run_child({**base_spec, "src": {"cfg": c2}, "actions": [base_spec["actions"][0][:12]]}, hashseed=0)
-        short = [s for s in base["steps"] if s[1] < 12]
+        r = traj.run_child({**base_spec, "src": {"cfg": c2}, "actions": [base_spec["actions"][0][:upto]]}, hashseed=0)
+        short = [s for s in base["steps"] if s[0] == 0 and s[1] < upto]
         return key if ("error" in r or traj.first_divergence(short, r["steps"])) else None
 
     with ThreadPoolExecutor(max_workers=6) as ex:
